@@ -567,8 +567,9 @@ func cmpEvent(vw *gocql.VerifView, ev *frame.Response) *problem {
 	return nil
 }
 
-// liveSequences enumerates every sequence of 1, 2 and 3 items of the version's alphabet that
-// contains at least one request (an EVENT needs a request before or after it to be sent).
+// liveSequences enumerates every sequence of 1, 2 and 3 items (thorough tier, connections without
+// compression: also 4) of the version's alphabet that contains at least one request (an EVENT
+// needs a request before or after it to be sent).
 func liveSequences(r *report.Run, v int, comp, mode string) (cases, requests int64) {
 	alphabet := seqAlphabet(v)
 	cfgName := fmt.Sprintf("v%d compression=%q %s", v, comp, mode)
@@ -616,7 +617,11 @@ func liveSequences(r *report.Run, v int, comp, mode string) (cases, requests int
 
 	n := len(alphabet)
 	caseNo := 0
-	for length := 1; length <= 3; length++ {
+	maxLen := 3
+	if r.Thorough() && comp == "" {
+		maxLen = 4
+	}
+	for length := 1; length <= maxLen; length++ {
 		total := 1
 		for i := 0; i < length; i++ {
 			total *= n
